@@ -690,6 +690,22 @@ def _holds_relocate_chain(ctx, inp, out):
 FILE_APIS = ["io", "io", "aoef", "positional", "positional_full", "aoef_positional"]
 
 
+def _doc_paths(doc):
+    """the recording entries of an in-memory document, as `save` would write them"""
+    return _rec_paths_of_data(json.loads(doc.model_dump_json(exclude_none=True))["data"])
+
+
+_DOC_CLASS = []
+
+
+def _doc_class():
+    """the class of the documents `to_aeof` returns (found by converting a one-recording set once)"""
+    if not _DOC_CLASS:
+        cj = _minimal(random.Random(0), "recording_set", "/x/y.wav")
+        _DOC_CLASS.append(type(_converters()[0](aoef.build(cj))))
+    return _DOC_CLASS[0]
+
+
 def _poison(obj):
     """the caller changes an object that a load returned, in place: every recording elsewhere, the last member
     of every list of the collection gone"""
@@ -708,11 +724,14 @@ def _impl_session(inp):
     save  a live object to a file (the same file may be the target again and again)
     load  a file into a live object
     poison  the caller changes a loaded object in place
+    convert / revive / parse / dump   the same through the public converters `to_aeof` / `to_soundevent` on
+            in-memory documents: one document object may be converted to objects several times, under
+            several directories, and written out afterwards
     -> the output of every step; after every save / load every *other* file must hold what it held before, a
     failing save must leave *every* file as it was, the saved object must read as before the call; at the end
     every loaded object that was not touched must still read as when it was returned"""
     d = _fresh_dir()
-    objs, outs, live, notes = {}, [], [], []
+    objs, docs, outs, live, notes = {}, {}, [], [], []
 
     def fpath(f):
         return os.path.join(d, f + ".json")
@@ -765,6 +784,46 @@ def _impl_session(inp):
                     ch = changed(before)
                     if ch:
                         out["changed"] = ch
+                elif do == "convert":
+                    # `to_aeof` on its own: an in-memory document
+                    obj = objs[st["obj"]]
+                    snap = _snapshot(obj)
+                    ad = _as_path(st.get("audio_dir"), st.get("dir_as", "str"))
+                    try:
+                        doc = _converters()[0](obj, ad) if st.get("positional") else _converters()[0](obj, audio_dir=ad)
+                        docs[st["doc"]] = doc
+                        out = {"val": _doc_paths(doc)}
+                    except leanio.InfraError:
+                        raise
+                    except Exception as e:  # noqa: BLE001
+                        out = canon_exc(e)
+                    if _snapshot(obj) != snap:
+                        out["mutated"] = True
+                elif do == "revive":
+                    # `to_soundevent` on a document object that may have been converted before
+                    doc = docs[st["doc"]]
+                    snap = _snapshot(doc)
+                    ad = _as_path(st.get("audio_dir"), st.get("dir_as", "str"))
+                    obj = _converters()[1](doc, ad) if st.get("positional") else _converters()[1](doc, audio_dir=ad)
+                    objs[st["into"]] = obj
+                    out = {"val": _live_paths(obj)}
+                    live.append((k, obj, out["val"]))
+                    if _snapshot(doc) != snap:
+                        out["mutated"] = True
+                elif do == "parse":
+                    # the text of a file as an in-memory document
+                    with open(fpath(st["file"])) as fh:
+                        docs[st["doc"]] = _doc_class().model_validate_json(fh.read())
+                    out = {"val": _doc_paths(docs[st["doc"]])}
+                elif do == "dump":
+                    # an in-memory document written out, the way `save` writes it
+                    before = files_state()
+                    with open(fpath(st["file"]), "w") as fh:
+                        fh.write(docs[st["doc"]].model_dump_json(exclude_none=True))
+                    out = _read_doc_paths(fpath(st["file"]))
+                    ch = changed(before, (st["file"] + ".json",))
+                    if ch:
+                        out["changed"] = ch
                 elif do == "poison":
                     obj = objs[st["obj"]]
                     live = [x for x in live if x[1] is not obj]
@@ -795,6 +854,9 @@ def _norm_paths(pairs):
     return {u: str(PurePosixPath(p)) for u, p in pairs}
 
 
+MEM = "in memory: "      # cells of the model that are in-memory documents, not files
+
+
 def _session_oracle(steps):
     """the session by pathlib arithmetic on {uuid: path} maps alone: what every step must report
     -> list of ("recs" | "stored", {uuid: path}) | ("fail",) | ("none",)"""
@@ -813,21 +875,28 @@ def _session_oracle(steps):
             cur = {u: (str(PurePosixPath(st["dst"])) if PurePosixPath(p) == src else p) for u, p in cur.items()}
             paths[st["obj"]] = cur
             want.append(("recs", dict(cur)))
-        elif do == "save":
+        elif do in ("save", "convert"):
             cur = paths.get(st["obj"])
             w = None if cur is None else _want_relocated(cur, st.get("audio_dir"), None)
             if w is None:
                 want.append(("fail",))
             else:
-                files[st["file"]] = w
+                files[st["file"] if do == "save" else MEM + st["doc"]] = w
                 want.append(("stored", dict(w)))
-        elif do == "load":
-            q = files.get(st["file"])
+        elif do in ("load", "revive"):
+            q = files.get(st["file"] if do == "load" else MEM + st["doc"])
             if q is None:
                 want.append(("fail",))
             else:
                 paths[st["into"]] = _want_relocated(q, None, st.get("audio_dir"))
                 want.append(("recs", dict(paths[st["into"]])))
+        elif do in ("parse", "dump"):
+            src, dst = (st["file"], MEM + st["doc"]) if do == "parse" else (MEM + st["doc"], st["file"])
+            if files.get(src) is None:
+                want.append(("fail",))
+            else:
+                files[dst] = dict(files[src])
+                want.append(("stored", dict(files[dst])))
         else:
             if do == "poison":
                 paths.pop(st.get("obj"), None)
@@ -845,6 +914,14 @@ def _step_text(st):
         return f"save {st['obj']} -> {st['file']} under {st.get('audio_dir')!r}"
     if do == "load":
         return f"load {st['file']} under {st.get('audio_dir')!r} -> {st['into']}"
+    if do == "convert":
+        return f"{st['doc']} = to_aeof({st['obj']}, {st.get('audio_dir')!r})"
+    if do == "revive":
+        return f"{st['into']} = to_soundevent({st['doc']}, {st.get('audio_dir')!r})"
+    if do == "parse":
+        return f"{st['doc']} = the document parsed from {st['file']}"
+    if do == "dump":
+        return f"write {st['doc']} to {st['file']}"
     return str(do)
 
 
@@ -863,13 +940,14 @@ def _holds_session(ctx, inp, io):
         if out.get("changed"):
             return where + f"files other than the target of a successful save changed: {out['changed']}"
         if out.get("mutated"):
-            return where + "the save changed the object it was given"
+            return where + ("the conversion changed the document it was given (it reads differently after the call)"
+                            if st.get("do") == "revive" else "the save / conversion changed the object it was given")
         if out.get("unreadable"):
             return where + (f"the written file is not one JSON document ({out['unreadable']}): something of the file "
                             "that was at the same path before is still there")
         if w[0] == "fail":
             if "val" in out:
-                if st.get("do") == "save":
+                if st.get("do") in ("save", "convert"):
                     return where + f"a recording lies outside the audio directory {st.get('audio_dir')!r} but saving did not fail"
                 return where + "the step succeeded although the session has no such object / file"
             continue
@@ -905,8 +983,21 @@ def _cmp_session(inp, io, mo):
 _MODEL_STEP_KEYS = ("do", "obj", "collection", "src", "dst", "file", "audio_dir", "into")
 
 
+def _model_step(st):
+    do = st.get("do")
+    if do == "convert":
+        return {"do": "save", "obj": st["obj"], "file": MEM + st["doc"], "audio_dir": st.get("audio_dir")}
+    if do == "revive":
+        return {"do": "load", "file": MEM + st["doc"], "audio_dir": st.get("audio_dir"), "into": st["into"]}
+    if do == "parse":
+        return {"do": "copy", "from": st["file"], "to": MEM + st["doc"]}
+    if do == "dump":
+        return {"do": "copy", "from": MEM + st["doc"], "to": st["file"]}
+    return {k: st[k] for k in _MODEL_STEP_KEYS if k in st}
+
+
 def _session_to_model(inp):
-    return {"steps": [{k: st[k] for k in _MODEL_STEP_KEYS if k in st} for st in inp["steps"]]}
+    return {"steps": [_model_step(st) for st in inp["steps"]]}
 
 
 # ------------------------------------------------------------------ paths that exist on disk
@@ -1607,6 +1698,17 @@ def _session_templates(ctx, rng, ty, which):
     if which == "caller changes a loaded object":
         return [put("a", big, how), sv("a", "f", A), ld("f", other, "x"), {"do": "poison", "obj": "x"}, ld("f", other, "y"),
                 ld("f", third, "z"), {"do": "poison", "obj": "y"}, ld("f", other, "w"), sv("a", "f", anc), ld("f", other, "v")]
+    if which == "one document converted several times":
+        if _converters() is None:
+            return None
+        cv = lambda obj, doc, d: {"do": "convert", "obj": obj, "doc": doc, "audio_dir": d, "dir_as": rng.choice(DIR_KINDS_SAVE),
+                                  **({"positional": True} if rng.random() < 0.3 else {})}
+        rv = lambda doc, d, into: {"do": "revive", "doc": doc, "audio_dir": d, "into": into, "dir_as": rng.choice(DIR_KINDS_LOAD),
+                                   **({"positional": True} if rng.random() < 0.3 else {})}
+        return [put("a", big, how), cv("a", "D", A), rv("D", other, "x"), rv("D", third, "y"), rv("D", None, "z"),
+                {"do": "dump", "doc": "D", "file": "f"}, ld("f", third, "w"), {"do": "parse", "file": "f", "doc": "E"},
+                rv("E", other, "u"), rv("E", third, "v"), rv("D", other, "t"), cv("a", "D", anc), rv("D", third, "s"),
+                cv("a", "F", outside), {"do": "dump", "doc": "E", "file": "g"}, ld("g", None, "r")]
     if which == "construction paths of one content":
         hows = rng.sample(BUILD_HOWS, 3)
         steps = []
@@ -1620,7 +1722,7 @@ def _session_templates(ctx, rng, ty, which):
 SESSION_KINDS = ["same target: longer, shorter, longer", "failing save over an existing file",
                  "same objects, other directories and files", "recording moved after the first save",
                  "loaded object changed and saved back", "caller changes a loaded object",
-                 "construction paths of one content"]
+                 "one document converted several times", "construction paths of one content"]
 
 
 def _random_session(ctx, rng, ty):
@@ -1635,9 +1737,10 @@ def _random_session(ctx, rng, ty):
         steps.append({"do": "put", "obj": "b", "collection": PGen(rng, base=base, size=0.5, itself=0.0).collection(ty2),
                       "how": rng.choice(BUILD_HOWS)})
     n_into = 0
+    conv = _converters() is not None
     for _ in range(rng.randint(5, 9)):
         want = _session_oracle(steps)
-        state_paths, files, dead = {}, set(), set()
+        files, docs = set(), set()
         # replay the oracle's bookkeeping (objects alive with their paths, files written)
         cur = {}
         for st, w in zip(steps, want):
@@ -1647,17 +1750,29 @@ def _random_session(ctx, rng, ty):
                 cur[st["into"]] = w[1]
             elif st["do"] == "save" and w[0] == "stored":
                 files.add(st["file"])
+            elif st["do"] == "convert" and w[0] == "stored":
+                docs.add(st["doc"])
             elif st["do"] == "poison":
                 cur.pop(st["obj"], None)
         z = rng.random()
-        if z < 0.45 or not files:
+        if z < 0.45 or not (files or docs):
             k = rng.choice(sorted(cur))
             cands = [None] + [_dir_variant(rng, d) for d in rng.sample(pool, 4)]
             inside = [d for d in cands if _want_relocated(cur[k], d, None) is not None]
             d = rng.choice(inside) if inside and rng.random() < 0.75 else rng.choice(cands)
-            steps.append({"do": "save", "obj": k, "file": rng.choice(["f", "f", "g"]), "audio_dir": d, **_opts(rng)})
+            if conv and rng.random() < 0.2:
+                steps.append({"do": "convert", "obj": k, "doc": rng.choice(["D", "E"]), "audio_dir": d,
+                              "dir_as": rng.choice(DIR_KINDS_SAVE)})
+            else:
+                steps.append({"do": "save", "obj": k, "file": rng.choice(["f", "f", "g"]), "audio_dir": d, **_opts(rng)})
         elif z < 0.8:
             n_into += 1
+            if docs and rng.random() < 0.4:
+                steps.append({"do": "revive", "doc": rng.choice(sorted(docs)), "audio_dir": rng.choice([None] + rng.sample(pool, 3)),
+                              "into": rng.choice(["x", "y", f"l{n_into}"]), "dir_as": rng.choice(DIR_KINDS_LOAD)})
+                continue
+            if not files:
+                continue
             steps.append({"do": "load", "file": rng.choice(sorted(files)), "audio_dir": rng.choice([None] + rng.sample(pool, 3)),
                           "into": rng.choice(["x", "y", f"l{n_into}"]), **_opts(rng, load=True)})
         elif z < 0.93:
@@ -1688,6 +1803,9 @@ def _session_cases(ctx, rng, reps, walks):
     for c in cases:
         for st in c["steps"]:
             ctx.tally("session step: " + st["do"] + (" by " + st["how"] if st["do"] in ("put", "move") else ""))
+            if st["do"] in ("convert", "revive"):
+                ctx.tally(f"session {st['do']}: " + (f"audio_dir as {st['dir_as']}" if st.get("audio_dir") is not None else "no audio_dir")
+                          + (", positional" if st.get("positional") else ""))
             if st["do"] in ("save", "load"):
                 ctx.tally(f"session {st['do']}: audio_dir as {st['dir_as']}" if st.get("audio_dir") is not None
                           else f"session {st['do']}: no audio_dir")
